@@ -7,12 +7,22 @@ import tsim
 
 def broadcast_targets(
     groups: list[list[stim.GateTarget]], *, stride: int, offsets: list[int]
-) -> list[int]:
-    """Broadcast gate target groups with a stride and set of offsets."""
-    out: list[int] = []
+) -> list[int | stim.GateTarget]:
+    """Broadcast gate target groups with a stride and set of offsets.
+
+    Inverted measurement targets (``M !0``) stay inverted on every broadcast target.
+    """
+    out: list[int | stim.GateTarget] = []
     for g in groups:
         for off in offsets:
-            out.extend([t.value * stride + off for t in g])
+            out.extend(
+                [
+                    stim.target_inv(t.value * stride + off)
+                    if t.is_inverted_result_target
+                    else t.value * stride + off
+                    for t in g
+                ]
+            )
     return out
 
 
